@@ -24,9 +24,14 @@ edit('crates/oq3_semantics/src/context.rs',
 edit('crates/oq3_semantics/src/symbols.rs',
      "    /// Try to lookup `name`. If a binding is found return the `SymbolId`, otherwise create a new binding",
      "    /// Same as `lookup`.\n    pub fn lookup_any_scope(&self, name: &str) -> Result<SymbolRecord<'_>, SymbolError> {\n        self.lookup(name)\n    }\n\n    /// Try to lookup `name`. If a binding is found return the `SymbolId`, otherwise create a new binding")
+# a scrutinee computed through a local, a constructor delegating to its sibling, a comment in a generated file, a renamed local
+edit('crates/oq3_parser/src/grammar/expressions.rs', "T!['['] if allow_calls => match lhs.kind() {", "T!['['] if allow_calls => match { let base = lhs.kind(); base } {")
+edit('crates/oq3_syntax/src/syntax_error.rs', "        Self(message.into(), TextRange::empty(offset))", "        Self::new(message, TextRange::empty(offset))")
+edit('crates/oq3_syntax/src/ast/generated/nodes.rs', "pub struct Name {", "// (a comment)\npub struct Name {")
+edit('crates/oq3_semantics/src/syntax_to_semantics.rs', "            let num = int_num.value_u128().unwrap(); // fn value_u128 is kind of a hack\n            asg::IntLiteral::new(num, true).to_texpr() // `true` means positive literal.", "            let n128 = int_num.value_u128().unwrap();\n            asg::IntLiteral::new(n128, true).to_texpr()")
 PY
 rc=0
-for p in ${*:-C01 C05 C06 C07 C08 C13 C19 C20}; do
+for p in ${*:-C01 C02 C03 C05 C06 C07 C08 C09 C11 C12 C13 C14 C15 C19 C20}; do
   r=$(cd "$(dirname "$0")/.." && OQ3_REPO="$WT" OQ3_EVIDENCE_DIR=/tmp/benign_ev_$$/ev OQ3_REPLAY_DIR=/tmp/benign_ev_$$/rp ./check "$p" 2>/dev/null | tail -1)
   echo "$r"
   case "$r" in *"exit 0") ;; *) rc=1;; esac
